@@ -26,6 +26,7 @@ type CredWorld struct {
 	opIdx int
 	done bool
 	checks int
+	handlers map[string]turn.AuthHandler
 }
 
 func (w *CredWorld) viol(class string, key map[string]string, format string, args ...any) {
@@ -68,15 +69,23 @@ func (w *CredWorld) exec(op *Op) {
 		if w.user == "" {
 			return
 		}
-		var h turn.AuthHandler
+		// one long-lived handler per secret, as a server has (a handler that remembers what it
+		// accepted before must still honour the expiry); now and then a fresh one
 		hsecret := secret
 		if op.A.S == "othersecret" {
 			hsecret = secret + "x"
 		}
-		if w.kind == "turnrest" {
-			h = turn.LongTermTURNRESTAuthHandler(hsecret, w.LF.NewLogger("auth"))
-		} else {
-			h = turn.NewLongTermAuthHandler(hsecret, w.LF.NewLogger("auth"))
+		if w.handlers == nil {
+			w.handlers = map[string]turn.AuthHandler{}
+		}
+		h := w.handlers[hsecret]
+		if h == nil || hasFlag(op, "fresh-handler") {
+			if w.kind == "turnrest" {
+				h = turn.LongTermTURNRESTAuthHandler(hsecret, w.LF.NewLogger("auth"))
+			} else {
+				h = turn.NewLongTermAuthHandler(hsecret, w.LF.NewLogger("auth"))
+			}
+			w.handlers[hsecret] = h
 		}
 		user, pass := w.user, w.pass
 		mut := op.A.Content
